@@ -6,6 +6,7 @@ CONSTANTS
   Lens = {0, 25}
   Cfgs <- CfgsQ
   Emit = TRUE
+  NeedCover = TRUE
   NeedLead = TRUE
 INVARIANT ColumnsDisjoint
 INVARIANT HitsInside
@@ -13,6 +14,7 @@ INVARIANT LinesInside
 INVARIANT LinesNested
 INVARIANT HitsRestOnLines
 INVARIANT GapsAvoidNotes
+INVARIANT HoldsInside
 INVARIANT CodedSepsAreGapsWhenThin
 CONSTRAINT EmitScn
 CHECK_DEADLOCK FALSE
